@@ -52,8 +52,13 @@ def gen_req(sim, size):
 
 def gen_case(sim):
     size = SIZES[sim.choose(len(SIZES))]
-    return {"size": size, "data_seed": sim.choose(1000), "short_reads": bool(sim.choose(3) == 0),
-            "reqs": [gen_req(sim, size) for _ in range(4)]}
+    reqs = []
+    for _ in range(4):
+        if reqs and sim.choose(5) == 0:
+            # the file changes (through another handle / by path) between two requests on the same handle
+            reqs.append([("grow", "shrink")[sim.choose(2)], (1, 300, 70000)[sim.choose(3)]])
+        reqs.append(gen_req(sim, size))
+    return {"size": size, "data_seed": sim.choose(1000), "short_reads": bool(sim.choose(3) == 0), "reqs": reqs}
 
 
 def expected(data, alg, offset, length, block):
@@ -98,16 +103,34 @@ def scenario(sim):
         s.put_both("h.bin", data)
         rf = s.sftp.open("h.bin", "rb")
         for req in case["reqs"]:
+            if req[0] == "grow":
+                more = content(case["data_seed"] + 1, req[1])
+                with s.sftp.open("h.bin", "ab") as wf:
+                    wf.write(more)
+                data += more
+                sim.probe("file_grown_between_requests")
+                continue
+            if req[0] == "shrink":
+                n = max(0, len(data) - req[1])
+                s.sftp.truncate("h.bin", n)
+                data = data[:n]
+                sim.probe("file_shrunk_between_requests")
+                continue
             one_request(sim, s, rf, case, req, data)
         rf.close()
     finally:
         s.close()
-    return {"sample": case, "nontrivial": True, "counts": [describe(case, case["reqs"][0])]}
+    return {"sample": case, "nontrivial": True, "counts": [describe(case, [r for r in case["reqs"] if len(r) == 4][0])]}
 
 
 def one_request(sim, s, rf, case, req, data):
     alg, off, ln, blk = req
     want, kind = expected(data, alg, off, ln, blk)
+    changed = len(data) != case["size"] or any(len(r) != 4 for r in case["reqs"][:case["reqs"].index(req)])
+    dcase = dict(case, size=len(data))
+
+    def describe_(c, r):
+        return describe(dcase, r) + (" after-file-change" if changed else "")
     box = {}
     sim.c32["req"] = req
 
@@ -122,7 +145,7 @@ def one_request(sim, s, rf, case, req, data):
     done = sim.join_task(task, T_CALL + 1.0)
     details = {"case": case, "request": req, "kind": kind}
     if not done:
-        raise Violation(("C32", "no-answer", describe(case, req)),
+        raise Violation(("C32", "no-answer", describe_(case, req)),
                         "check(%s, offset=%d, length=%d, block_size=%d) on a %d-byte file: no answer after %.1f virtual seconds (server parked in %s)"
                         % (alg, off, ln, blk, case["size"], sim.now - t0, server_where(sim)), details)
     sim.probe("requests")
@@ -133,7 +156,7 @@ def one_request(sim, s, rf, case, req, data):
         if kind == "empty-range":
             sim.probe("empty_range_answered_with_error")
             return
-        raise Violation(("C32", "error-answer", describe(case, req)),
+        raise Violation(("C32", "error-answer", describe_(case, req)),
                         "check(%s, offset=%d, length=%d, block_size=%d) on a %d-byte file raised %r; expected %d digest bytes"
                         % (alg, off, ln, blk, case["size"], box["exc"], len(want)), details)
     got = box["res"]
@@ -141,7 +164,7 @@ def one_request(sim, s, rf, case, req, data):
         dl = hashlib.new(alg).digest_size
         nb_w, nb_g = len(want) // dl, len(got) // dl
         first = next((i for i in range(min(nb_w, nb_g)) if want[i * dl:(i + 1) * dl] != got[i * dl:(i + 1) * dl]), min(nb_w, nb_g))
-        raise Violation(("C32", "wrong-digest", describe(case, req)),
+        raise Violation(("C32", "wrong-digest", describe_(case, req)),
                         "check(%s, offset=%d, length=%d, block_size=%d) on a %d-byte file: %d blocks expected, %d returned, first wrong block %d"
                         % (alg, off, ln, blk, case["size"], nb_w, nb_g, first), details)
 
@@ -184,13 +207,19 @@ def case_candidates(case):
     reqs = case["reqs"]
     if len(reqs) > 1:
         for i in range(len(reqs)):
-            yield with_(reqs=[reqs[i]])
+            if len(reqs[i]) == 4:
+                yield with_(reqs=[reqs[i]])
+        for i in range(len(reqs)):
+            yield with_(reqs=reqs[:i] + reqs[i + 1:])
     if case["short_reads"]:
         yield with_(short_reads=False)
     for small in SIZES:
         if small < case["size"]:
             yield with_(size=small)
-    for i, (alg, off, ln, blk) in enumerate(reqs):
+    for i, rq in enumerate(reqs):
+        if len(rq) != 4:
+            continue
+        alg, off, ln, blk = rq
         for v in (0, 1, 256):
             if v < off:
                 yield with_(reqs=reqs[:i] + [[alg, v, ln, blk]] + reqs[i + 1:])
